@@ -193,6 +193,12 @@ func (fr *frame) builtin(b *ssa.Builtin, cc *ssa.CallCommon, args []value, pos t
 			}
 		}
 		return nil
+	case "ssa:wrapnilchk":
+		// wrapper for a method value / promoted method: the receiver pointer must not be nil
+		if p, ok := args[0].(*value); ok && p == nil {
+			m.fail("panic.nil", pos)
+		}
+		return args[0]
 	case "recover":
 		return iface{}
 	}
